@@ -177,7 +177,7 @@ func C19(r *drv.Run) {
 		}
 		c := wire.Case{Op: "conc", Srcs: srcs, Texts: texts, Calls: calls, Goroutines: g, Yield: i%2 == 0}
 		return &drv.Item{Case: c, Check: func(res *wire.Result) {
-			r.Eval(1)
+			r.Eval(len(res.Calls))
 			if res.Died || res.Panic != nil {
 				r.Violate(&drv.Violation{Sig: "concurrent-round-crashed:" + classifyFatal(res.Stderr), Panic: firstLines(res.Stderr, 4), Case: &c})
 				return
